@@ -345,3 +345,52 @@ Fixpoint norm_print (n : node) : node :=
 
 Definition roundtrip_ok (out reparsed : node) : bool :=
   node_eqb_nospan (norm_print out) (norm_print reparsed).
+
+(** ** "Exactly once": no effectful sub-expression of the input is mentioned more often in the output.
+    The eraser substitutes a temporary by what was assigned to it, so an output that evaluates an original
+    sub-expression a second time *instead of* reading the temporary erases to the same tree; this count sees it.
+    An occurrence is identified by its kind and source span; hook calls, injected nodes (dummy span) and the
+    assignments to injected temporaries (which carry the span of the operation) are not occurrences of the input. *)
+Definition effect_kind (k : kind) : bool :=
+  match k with
+  | KCall | KNew | KUpdate | KAssign | KTaggedTpl | KYield | KAwait | KFnExpr | KClassExpr | KArrow => true
+  | _ => false
+  end.
+
+Definition temp_assign (vp : string) (n : node) : bool :=
+  match n with
+  | Node (K KAssign _ _) [_; lhs; _] => match is_temp_ident vp lhs with Some _ => true | None => false end
+  | _ => false
+  end.
+
+Fixpoint effect_spans (vp : string) (n : node) : list (kind * N * N) :=
+  match n with
+  | Node t cs =>
+      (match t with
+       | K k lo hi =>
+           if effect_kind k && negb (is_dummy (lo, hi)) && negb (is_hook (Node t cs)) && negb (temp_assign vp (Node t cs))
+           then [(k, lo, hi)] else []
+       | _ => []
+       end) ++
+      (fix go (l : list node) : list (kind * N * N) :=
+         match l with [] => [] | c :: l' => effect_spans vp c ++ go l' end) cs
+  end.
+
+Definition key_eqb (a b : kind * N * N) : bool :=
+  let '(k1, l1, h1) := a in let '(k2, l2, h2) := b in kind_eqb k1 k2 && N.eqb l1 l2 && N.eqb h1 h2.
+
+Definition count_key (x : kind * N * N) (l : list (kind * N * N)) : nat :=
+  length (filter (key_eqb x) l).
+
+(** Spans that occur more often in the output than in the input (each reported once). *)
+Definition dup_effects (vp : string) (ast_in ast_out : node) : list (N * N) :=
+  let i := effect_spans vp ast_in in
+  let o := effect_spans vp ast_out in
+  (fix go (l : list (kind * N * N)) (seen : list (kind * N * N)) : list (N * N) :=
+     match l with
+     | [] => []
+     | x :: r =>
+         if existsb (key_eqb x) seen then go r seen
+         else if Nat.ltb (count_key x i) (count_key x o) then (snd (fst x), snd x) :: go r (x :: seen)
+         else go r (x :: seen)
+     end) o [].
